@@ -149,7 +149,8 @@ func (te *TwitterExtractor) getTweetIdFromURL(tweetURL string) string {
 		tweetURL = "http:" + tweetURL
 	}
 
-	parsedURL, err := nurl.ParseRequestURI(tweetURL)
+	// The URL may have a fragment, which is not part of the path
+	parsedURL, err := nurl.Parse(tweetURL)
 	if err != nil {
 		return ""
 	}
